@@ -128,9 +128,13 @@ func (r *mapRun) remoteCfg(withCache bool) *mast.RemoteConfig {
 	if r.cfg.Marsh == "gob" {
 		c.Marshal, c.Unmarshal, c.UnmarshalerUsesRegisteredTypes = gobMarshal, gobUnmarshal, true
 	}
+	if r.cfg.Marsh == "jsonreg" {
+		// default JSON marshaler, but whole nodes are decoded in one step ("registered types"): round-trips for string keys and values
+		c.UnmarshalerUsesRegisteredTypes = true
+	}
 	if r.cfg.Cmp {
 		def := mast.DefaultKeyCompare(json.Marshal)
-		c.KeyCompare = func(a, b interface{}) (int, error) { return def(a, b) }
+		c.KeyCompare = func(a, b interface{}) (int, error) { x, err := def(a, b); return 7 * x, err } // same sign, other magnitude
 	}
 	return c
 }
@@ -493,6 +497,12 @@ func randomMapTrace(id int, seed int64, steps int, out *json.Encoder, fixed *map
 			cfg.KT = []string{"int", "int64", "uint", "uint64", "string", "bytes", "userkey"}[rng.Intn(7)]
 		}
 		cfg.Cmp = rng.Intn(4) == 0 && cfg.KT != "struct"
+		if (profile == "reload" || profile == "general" || profile == "versions") && cfg.Marsh == "" && rng.Intn(8) == 0 {
+			cfg.Marsh = "jsonreg"
+			cfg.NF = "v1"
+			cfg.KT, cfg.VT = "string", "string"
+			cfg.Cmp = false
+		}
 		if profile == "versions" {
 			// the shared cache is what makes versions meet in the same node objects
 			cfg.Cache = []string{"large", "large", "tiny", "none"}[rng.Intn(4)]
